@@ -307,7 +307,7 @@ def run_history(cfg, data, truth):
             abel.rbasex.rbasex_transform(np.array(prj, dtype=float), weights=w, out=None, verbose=False, **kw)
         else:
             reg = {'SVD': ('SVD', 0.05), 'L2': ('L2', 10.0), 'diff': ('diff', 10.0), 'pos': 'pos'}[h]
-            if h == 'pos' and (kw['order'] % 2 == 1 and kw['order'] > 1):
+            if h == 'pos' and (kw['odd'] or kw['order'] % 2 == 1) and kw['order'] > 1:
                 reg = ('L2', 1.0)                   # 'pos' is not implemented for odd orders > 1
             abel.rbasex.rbasex_transform(np.array(prj, dtype=float), reg=reg, out=None, verbose=False, **kw)
 
@@ -657,7 +657,7 @@ elif clause == 'dr-scale':
     a = sweep.run_method(cfg, np.array(sweep.make_data(c1)[0], dtype=float)); a = a[0] if isinstance(a, tuple) else a
     b = sweep.run_method(c1, np.array(sweep.make_data(c1)[0], dtype=float)); b = b[0] if isinstance(b, tuple) else b
     s = cfg['dr'] if cfg['dir'] == 'forward' else 1 / cfg['dr']
-    dev = float(np.max(np.abs(a - s * b)) / np.max(np.abs(b)))
+    dev = float(np.max(np.abs(a - s * b)) / np.max(np.abs(s * b)))
     ok = dev <= (1e-9 if 'r' in cfg['opts'] else 1e-12)
     print('%%s %%s options %%s dr=%%g: max |T(dr) - %%g*T(1)| / max|T(1)| = %%.3g' %% (cfg['dir'], cfg['method'], cfg['opts'], cfg['dr'], s, dev))
 print('clause', clause, 'holds' if ok else 'FAILS')
